@@ -280,6 +280,20 @@ def run_check(check: Check, tier: str, replay: Optional[str] = None) -> int:
         path = C.write_replay(pid, payload)
         print(f"VIOLATION property={pid} replay={path}")
         print(f"  {v.get('signature')}: {v.get('what')}")
+        # further, distinct findings of the same run: one replay each (still a single VIOLATION line)
+        by_sig: Dict[str, List[Tuple[int, dict]]] = {}
+        for i2, v2 in new_viol:
+            by_sig.setdefault(str(v2.get("signature")), []).append((i2, v2))
+        print(f"  ({len(by_sig[str(v.get('signature'))])} failing cases with this signature)")
+        for sig, lst in by_sig.items():
+            if sig == str(v.get("signature")):
+                continue
+            i2, v2 = lst[0]
+            p2 = C.write_replay(pid, {"property": pid, "kind": "failing-input", "signature": sig, "what": v2.get("what"),
+                                      "witness": v2.get("witness"), "case": cases[i2] if i2 >= 0 else v2.get("case"),
+                                      "impl": impls[i2] if i2 >= 0 else None, "model": models[i2] if i2 >= 0 else None,
+                                      "seed": seed, "tier": tier, "broken": broken, "replay_cmd": f"./check {pid} --replay <this file>"})
+            print(f"  also: {sig}: {v2.get('what')} ({len(lst)} failing cases) replay={p2}")
         printed = True
         exit_code = 1
     elif broken or mismatches:
